@@ -34,8 +34,13 @@ type gor struct {
 	fin  bool
 }
 
-// Thread is the program of one goroutine: each call returns its result as a Coq `res` term.
-type Thread struct{ Calls []func() string }
+// Thread is the program of one goroutine: each call returns its result as a
+// Coq `res` term. When Dyn is set it is run instead of Calls and reports each
+// result through rec (for programs whose next call depends on earlier results).
+type Thread struct {
+	Calls []func() string
+	Dyn   func(rec func(result string))
+}
 
 type Chooser func(stepIdx int, enabled []int, last int) int
 
@@ -141,6 +146,7 @@ func Run(threads []Thread, choose Chooser, maxSteps int) (res Result) {
 		g := &gor{id: i, gate: make(chan struct{})}
 		gs[i] = g
 		calls := threads[i].Calls
+		dyn := threads[i].Dyn
 		go func() {
 			<-g.gate
 			defer func() {
@@ -150,6 +156,10 @@ func Run(threads []Thread, choose Chooser, maxSteps int) (res Result) {
 				g.pend = pending{done: true}
 				parked <- g
 			}()
+			if dyn != nil {
+				dyn(func(r string) { res.Results[g.id] = append(res.Results[g.id], r) })
+				return
+			}
 			for _, c := range calls {
 				res.Results[g.id] = append(res.Results[g.id], c())
 			}
